@@ -101,7 +101,7 @@ def op_programs(tier):
     for name, op in U.operators():
         if name in U.SKIP_OPS or U.is_marker(op):
             continue
-        for si, args in U.instantiations(op):
+        for si, args in U.instantiations(op, implicit=True):
             if name == "neg" and args[0][1].startswith("uint"):
                 continue  # the negation of an unsigned value overflows (DESIGN 4.2)
             if name == "sub" and args[0][1] in ("date", "datetime"):
@@ -223,6 +223,9 @@ def verb_programs(built):
         ("float-fn-int-values", lambda: a >> pdt.filter(a.k == 2) >> pdt.mutate(y1=a.f64.fill_null(0), y2=pdt.coalesce(a.f32, 7), y3=pdt.max(a.f64, 5), y4=pdt.min(a.f64, a.k))),
         ("float-fn-int-values-agg", lambda: a >> pdt.filter(a.k == 2) >> pdt.summarize(m1=a.f64.fill_null(0).max(), m2=pdt.coalesce(a.f64, a.k).min(), m3=a.f64.fill_null(3).mean())),
         ("mutate-round", lambda: a >> pdt.mutate(r1=a.i8.round(-1), r2=a.i64.round(-1), r3=a.f32.round(-1), r4=a.u16.round(1), r5=a.f64.round(0))),
+        ("lit-typed", lambda: a >> pdt.mutate(l1=pdt.lit(1, pdt.Float()), l2=pdt.lit(1, pdt.Float32()), l3=pdt.lit(1, pdt.Int8()), l4=pdt.lit(2, pdt.Float64()),
+                                                l5=pdt.lit(1.0, pdt.Float()), l6=pdt.lit(None, pdt.Int16()), l7=pdt.lit(1, pdt.Float()) + a.i8, l8=pdt.lit(3, pdt.UInt8()) * 2)),
+        ("union-stale-left-ref", lambda: a >> pdt.select(a.k, a.i8, a.f32) >> pdt.union(b >> pdt.select(b.k, b.i8, b.f32)) >> pdt.mutate(y=a.i8 + 1, z=a.f32 * 2, w=C.i8 + 1)),
         ("slice-arrange", lambda: a >> pdt.arrange(a.k) >> pdt.slice_head(1)),
     ]
 
